@@ -272,6 +272,21 @@ const ezc3d::DataNS::Data& ezc3d::c3d::data() const
     return *_data;
 }
 
+// The ANALOG group should always hold its parameters, but we have to take in account Optotrak lazyness:
+// as long as USED, RATE and LABELS are not all there, nothing is declared about the analogs
+static bool isAnalogDeclared(const ezc3d::ParametersNS::Parameters& params)
+{
+    const ezc3d::ParametersNS::GroupNS::Group& analog(params.group("ANALOG"));
+    try {
+        analog.parameterIdx("USED");
+        analog.parameterIdx("RATE");
+        analog.parameterIdx("LABELS");
+    } catch (std::invalid_argument) {
+        return false;
+    }
+    return true;
+}
+
 // The POINT and ANALOG parameters that the library reads and rewrites itself when frames, points or channels
 // are added must keep the type it expects, otherwise these calls would stop half-way later on
 static void checkTypeOfMaintainedParameter(const std::string &groupName, const ezc3d::ParametersNS::GroupNS::Parameter &p)
@@ -372,7 +387,7 @@ void ezc3d::c3d::frame(const ezc3d::DataNS::Frame &f, size_t idx)
     // The ANALOG group should always hold its parameters, but we have to take in account Optotrak lazyness
     // (as updateHeader does): a frame without any channel does not need them
     size_t subSize(f.analogs().nbSubframes());
-    bool skipAnalogParameters(parameters().group("ANALOG").nbParameters() == 0
+    bool skipAnalogParameters(!isAnalogDeclared(parameters())
                               && (subSize == 0 || f.analogs().subframe(0).nbChannels() == 0));
     if (!skipAnalogParameters && subSize > 0 && static_cast<double>(parameters().group("ANALOG").parameter("RATE").valuesAsFloat().at(0)) == 0.0){
         throw std::runtime_error("Analog frame rate must be specified if you add some");
@@ -541,7 +556,7 @@ void ezc3d::c3d::updateHeader()
             _header->nbAnalogByFrame(data().frame(filled).analogs().nbSubframes());
     } else {
         // Should always be greater than 0, but we have to take in account Optotrak lazyness
-        if (parameters().group("ANALOG").nbParameters()){
+        if (isAnalogDeclared(parameters())){
             if (static_cast<size_t>(pointRate) == 0){
                 if (static_cast<size_t>(header().nbAnalogByFrame()) != 1)
                     _header->nbAnalogByFrame(1);
@@ -555,7 +570,7 @@ void ezc3d::c3d::updateHeader()
     }
 
     // Should always be greater than 0, but we have to take in account Optotrak lazyness
-    if (parameters().group("ANALOG").nbParameters()){
+    if (isAnalogDeclared(parameters())){
         if (static_cast<size_t>(parameters().group("ANALOG").parameter("USED").valuesAsInt().at(0)) != header().nbAnalogs())
             _header->nbAnalogs(static_cast<size_t>(parameters().group("ANALOG").parameter("USED").valuesAsInt().at(0)));
     } else
@@ -630,7 +645,7 @@ void ezc3d::c3d::updateParameters(const std::vector<std::string> &newPoints, con
     // If analogous data has been added
     ezc3d::ParametersNS::GroupNS::Group& grpAnalog(_parameters->group_nonConst(parameters().groupIdx("ANALOG")));
     // Should always hold its parameters, but we have to take in account Optotrak lazyness (as updateHeader does)
-    if (grpAnalog.nbParameters() == 0 && newAnalogs.size() == 0){
+    if (!isAnalogDeclared(parameters()) && newAnalogs.size() == 0){
         updateHeader();
         return;
     }
